@@ -171,6 +171,59 @@ func runC02(p *Prog, r *Report) {
 	c02EmptyPool(p, r)
 	c02Identity(p, r, pools)
 	c02Ownership(p, r, pools)
+	c02InnerLocked(p, r)
+	// R7: every pool change resets the rotation state, so the selection loop never runs on a level computed for another pool (shared with C01.R2)
+	r.Borrow(p, runC01, map[string]string{"C01.R2": "C02.R7"}, nil)
+}
+
+// c02InnerLocked (R6): the rebalancer keeps its shadow list and the wrapped balancer's pool in step by
+// changing both inside one critical section. Every call that changes the wrapped balancer's pool
+// (UpsertServer / RemoveServer on the field holding it), on every call path from every exported
+// method, is made with the rebalancer mutex held exclusively — otherwise a concurrent RemoveServer can
+// fall between a weight snapshot and its application and the removed server is re-created.
+func c02InnerLocked(p *Prog, r *Report) {
+	rb := p.Named("roundrobin", "Rebalancer")
+	if rb == nil {
+		r.Anchor("C02.R6", "roundrobin.Rebalancer", "type not found")
+		return
+	}
+	mus := fieldsOfType(rb, func(t types.Type) bool { return typeIs(t, "sync", "Mutex") || typeIs(t, "sync", "RWMutex") })
+	ls := LocksetFor(p, rb)
+	n := 0
+	bad := map[string]Access{}
+	for _, a := range ls.CallSites {
+		cc := CallCommonOf(a.Instr)
+		if cc == nil || !cc.IsInvoke() || !strings.HasPrefix(a.Path, "R.") || strings.Count(a.Path, ".") != 1 {
+			continue
+		}
+		if m := cc.Method.Name(); m != "UpsertServer" && m != "RemoveServer" {
+			continue
+		}
+		if _, ex := c09ExemptRoots[strings.TrimSuffix(a.Root, "$go")]; ex {
+			continue
+		}
+		n++
+		held := false
+		for _, m := range mus {
+			if a.Locks["R."+m] == 'W' {
+				held = true
+			}
+		}
+		if !held {
+			k := fmt.Sprintf("roundrobin.Rebalancer: %s of the wrapped balancer in %s [entry %s]", cc.Method.Name(), FName(a.Fn), a.Root)
+			if _, ok := bad[k]; !ok {
+				bad[k] = a
+			}
+		}
+	}
+	r.Sites += n
+	for k, a := range bad {
+		r.Fail("C02.R6", k, p.InstrPos(a.Instr), "the wrapped balancer's pool is changed without the rebalancer mutex (locks {"+a.Locks.String()+"}): the change is not atomic with the rebalancer's own record of the pool, a concurrent removal can be undone")
+	}
+	if len(bad) == 0 {
+		r.Pass("C02.R6", "roundrobin.Rebalancer: wrapped balancer's pool only changed under the rebalancer mutex", "-", fmt.Sprintf("%d UpsertServer/RemoveServer calls on all call paths from exported methods hold it exclusively", n))
+	}
+	r.Floor("C02.R6", n, 4, "pool-changing calls on the wrapped balancer")
 }
 
 func c02UpsertRemove(p *Prog, r *Report, pools []poolInfo) {
